@@ -10,7 +10,7 @@ use super::adam::{Adam, AdamOptions};
 use super::dual_avg::{AcceptanceRateCollector, DualAverage, DualAverageOptions};
 use crate::{
     Math, NutsError,
-    dynamics::{Direction, Hamiltonian, LeapfrogResult, Point},
+    dynamics::{Direction, Hamiltonian, LeapfrogResult, Point, State},
     nuts::{Collector, NutsOptions},
     sampler_stats::SamplerStats,
 };
@@ -88,19 +88,30 @@ impl Strategy {
         }
     }
 
+    /// Run the initial step size search from `position`.
+    ///
+    /// If `start` is given it must be a state at `position` whose density has
+    /// already been evaluated (e.g. the current draw). The search then starts
+    /// from a copy of it instead of evaluating the density at `position` again,
+    /// so that re-running the search during tuning can not fail because of a
+    /// (recoverable) error of the density at a point that was already accepted.
     pub fn init<M: Math, R: Rng + ?Sized, P: Point<M>>(
         &mut self,
         math: &mut M,
         options: &mut NutsOptions,
         hamiltonian: &mut impl Hamiltonian<M, Point = P>,
         position: &[f64],
+        start: Option<&State<M, P>>,
         rng: &mut R,
     ) -> Result<(), NutsError> {
         if let StepSizeAdaptMethod::Fixed(step_size) = self.options.adapt_options.method {
             *hamiltonian.step_size_mut() = step_size;
             return Ok(());
         };
-        let mut state = hamiltonian.init_state(math, position)?;
+        let mut state = match start {
+            Some(start) => hamiltonian.copy_state(math, start),
+            None => hamiltonian.init_state(math, position)?,
+        };
         hamiltonian.initialize_trajectory(math, &mut state, true, rng)?;
 
         let mut collector = AcceptanceRateCollector::new();
